@@ -23,7 +23,7 @@ def one(sid):
             if p not in avail:
                 out[p] = "n/a"; continue
             env = dict(os.environ, SA_NO_EVIDENCE="1")
-            r = subprocess.run(["/venv/bin/python", "-m", "sa.cli", "check", p, "--repo", tmp], cwd="/verif", capture_output=True, text=True, env=env)
+            r = subprocess.run(["/venv/bin/python", "-m", "sa.cli", "check", p, "--repo", tmp], cwd=os.environ.get("SA_ROOT", "/verif"), capture_output=True, text=True, env=env)
             v = [l for l in r.stdout.splitlines() if "VIOLATED" in l or l.startswith("ANALYSIS-ERROR")]
             out[p] = {0: "pass", 1: "VIOLATION", 2: "ERROR"}.get(r.returncode, str(r.returncode)) + (" :: " + v[0][:150] if v else "")
         return sid, out
